@@ -355,6 +355,13 @@ def exec_scenario(sc, wd, plan=None, keep=False, real_lli=False, restart=False, 
     return obs
 
 
+def trace_sha(trace):
+    """Hash of a syscall trace. Sizes of stderr writes are left out: when penne
+    itself panics, the Rust runtime prints the OS thread id, whose number of
+    digits is the one thing in a run the simulator does not own."""
+    return sha("\n".join(l for l in trace if not l.startswith("T err ")))
+
+
 TRACE_LINE = re.compile(r"^T (\w+) (\d+) ?(.*?) ?= (.*)$")
 
 
@@ -636,7 +643,7 @@ def _enum_job(args):
     root = os.path.join(work_root(), "C18", "e%d" % k)
     census = run_census(sc, os.path.join(root, "census"))
     res = {"k": k, "name": sc["name"], "runs": 1, "violations": [], "fired": {}, "configured": {}, "sites": 0,
-           "triples": set(), "trace_hashes": {sha("\n".join(census["trace"]))}, "branches": set(), "calls": len(census["trace"])}
+           "triples": set(), "trace_hashes": {trace_sha(census["trace"])}, "branches": set(), "calls": len(census["trace"])}
     v, calls, _ = judge(sc, census, census, "census", None)
     res["branches"].add(model_expect_zero(sc, calls)[1])
     for cls, d in v:
@@ -662,7 +669,7 @@ def _enum_job(args):
             if fired:
                 res["fired"][fk] = res["fired"].get(fk, 0) + 1
                 res["triples"].add((sc["sub"] + "/" + sc["input_kind"], site["kind"], fk))
-            res["trace_hashes"].add(sha("\n".join(obs["trace"])))
+            res["trace_hashes"].add(trace_sha(obs["trace"]))
             res["branches"].add(model_expect_zero(sc, calls)[1] if not obs["timeout"] else "hang")
             for cls, d in v:
                 res["violations"].append({"class": cls, "detail": d, "scenario": sc_json(sc), "plan": plan, "fault": fk,
@@ -833,7 +840,7 @@ def _crash_restart_job(args):
         res["runs"] += 1
         v, calls2, _ = judge(sc, again, census, "restart_after_crash", None)
         res["branches"].add("restart:" + model_expect_zero(sc, calls2)[1])
-        res["trace_hashes"].add(sha("\n".join(dead["trace"])))
+        res["trace_hashes"].add(trace_sha(dead["trace"]))
         for cls, d in v:
             res["violations"].append({"class": cls, "detail": "after a crash at %s (torn=%d) and a restart: %s" % (plan[0], torn, d),
                                       "scenario": sc_json(sc), "plan": plan, "fault": "crash_restart"})
@@ -953,11 +960,11 @@ def _swarm_job(args):
             res["fired"][f["action"]] = res["fired"].get(f["action"], 0) + 1
         for sk, fk in kinds:
             res["triples"].add((sc["sub"] + "/" + sc["input_kind"], sk, fk))
-        res["trace_hashes"].add(sha("\n".join(obs["trace"])))
+        res["trace_hashes"].add(trace_sha(obs["trace"]))
         res["branches"].add(model_expect_zero(sc, calls1)[1] if not obs["timeout"] else "hang")
         for cls, d in v:
             res["violations"].append({"class": cls, "detail": d, "scenario": sc_json(sc), "plan": plan, "fault": "+".join(k for _, k in kinds)})
-    res["trace_hashes"].add(sha("\n".join(census["trace"])))
+    res["trace_hashes"].add(trace_sha(census["trace"]))
     shutil.rmtree(root, ignore_errors=True)
     res["triples"] = sorted(res["triples"])
     res["trace_hashes"] = sorted(res["trace_hashes"])
